@@ -250,4 +250,5 @@ def check(ctx, R):
     R.run("C08.e", rule_e, ctx)
     from . import c06
     R.run("C08.f", lambda R, c: c06.rule_g(R, c, "C08.f", only=("yrs::update::Update::encode_diff",)), ctx)
+    R.run("C08.g", lambda R, c: c06.rule_h(R, c, "C08.g"), ctx)
     return {}
